@@ -87,7 +87,7 @@ func (f *frame) instr(in ssa.Instruction) {
 	case *ssa.Convert:
 		f.convert(x)
 	case *ssa.ChangeType:
-		f.setVal(x, f.val(x.X))
+		f.setVal(x, f.retype(f.val(x.X), x.X.Type(), x.Type()))
 		if pd := f.ptrDescOf(x.X); pd != nil {
 			f.ptrs[x] = pd
 		}
@@ -389,6 +389,8 @@ func (f *frame) convert(x *ssa.Convert) {
 		}
 	}
 	switch {
+	case isStructType(from) && isStructType(to):
+		f.setVal(x, f.retype(v, from, to))
 	case fs == ts && fs != SSlice:
 		f.setVal(x, v)
 	case fs == SStr && ts == SSlice: // []byte(s)
@@ -639,4 +641,28 @@ func derivedAddr(v ssa.Value) bool {
 		return true
 	}
 	return false
+}
+
+// retype converts a value between types with identical underlying structure (struct datatypes differ per named type).
+func (f *frame) retype(v Term, from, to types.Type) Term {
+	tt := f.tt()
+	if tt.sortOf(from) == tt.sortOf(to) {
+		return v
+	}
+	if isStructType(from) && isStructType(to) {
+		sf, st := tt.structOf(from), tt.structOf(to)
+		if len(sf.fields) != len(st.fields) {
+			unsup("struct conversion with different shapes")
+		}
+		if len(st.fields) == 0 {
+			return Term{st.ctor, st.sort}
+		}
+		var args []Term
+		for i := range sf.fields {
+			args = append(args, f.retype(tt.fieldOf(v, sf, i), sf.fields[i].typ, st.fields[i].typ))
+		}
+		return app(st.ctor, st.sort, args...)
+	}
+	unsup("conversion %s -> %s", from, to)
+	return Term{}
 }
